@@ -250,7 +250,18 @@ func mNeg(v any) mres {
 func genOperands(t *rapid.T) (any, []any) {
 	o := gen.Opt{Reps: true, Special: true, BadUTF8: true, MaxDepth: 2, MaxWidth: 3}
 	pair := func() (any, any) {
-		switch rapid.IntRange(0, 6).Draw(t, "cell") {
+		switch rapid.IntRange(0, 7).Draw(t, "cell") {
+		case 7: // magnitude boundaries against each other, small numbers and doubles
+			small := []any{0, 1, -1, 2, 3, 0.5, 2.0, -3.0, 1e308, math.MaxFloat64, 10, 1e-300}
+			l := univ.Copy(rapid.SampledFrom(edgeNumbers).Draw(t, "l"))
+			if rapid.Bool().Draw(t, "edge2") {
+				return l, univ.Copy(rapid.SampledFrom(edgeNumbers).Draw(t, "r"))
+			}
+			r := rapid.SampledFrom(small).Draw(t, "r")
+			if rapid.Bool().Draw(t, "swap") {
+				return r, l
+			}
+			return l, r
 		case 0:
 			return gen.Number(o).Draw(t, "l"), gen.Number(o).Draw(t, "r")
 		case 1:
@@ -306,6 +317,18 @@ func init() {
 	addModel("op/*", ". * $a", 1, bin(mMul), genOperands)
 	addModel("op//", ". / $a", 1, bin(mDiv), genOperands)
 	addModel("op/%", ". % $a", 1, bin(mMod), genOperands)
+	// comparisons: "null < false < true < numbers < strings < arrays < objects",
+	// numbers by value whatever carries them (C11 explores the order in depth;
+	// here the expected double of a big integer comes from math/big)
+	cmpModel := func(test func(c int) bool) func(in any, a []any) mres {
+		return func(in any, a []any) mres { return one(test(jqCmp(in, a[0]))) }
+	}
+	addModel("op/==", ". == $a", 1, cmpModel(func(c int) bool { return c == 0 }), genOperands)
+	addModel("op/!=", ". != $a", 1, cmpModel(func(c int) bool { return c != 0 }), genOperands)
+	addModel("op/<", ". < $a", 1, cmpModel(func(c int) bool { return c < 0 }), genOperands)
+	addModel("op/<=", ". <= $a", 1, cmpModel(func(c int) bool { return c <= 0 }), genOperands)
+	addModel("op/>", ". > $a", 1, cmpModel(func(c int) bool { return c > 0 }), genOperands)
+	addModel("op/>=", ". >= $a", 1, cmpModel(func(c int) bool { return c >= 0 }), genOperands)
 	addModel("op/neg", "-(.)", 0, func(in any, _ []any) mres { return mNeg(in) }, nil)
 	_ = univ.Show
 }
